@@ -17,6 +17,7 @@ type SeqCfg struct {
 	Depth       int
 	Alpha       func(m *Model) []Op // alphabet for a model state, rejected ops included
 	RealDepth   int                 // sequences up to this length are also run on real fs + bbolt and compared step by step
+	Lazy        bool                // also run every sequence without waiting for the background rotation between calls
 	Metrics     bool                // attach AtomicCollectors and check the counters after every step
 	Deadline    time.Time
 	Shard       int
@@ -28,6 +29,7 @@ type SeqStats struct {
 	Sequences   int
 	Steps       int
 	RealRuns    int
+	LazyRuns    int
 	Rejected    int // steps the model rejects (and the implementation must too)
 	Outcomes    map[string]int
 	DeadlineHit bool
@@ -145,6 +147,15 @@ func (e *SeqEngine) runOne(ops []Op) {
 	}
 	if len(ops) <= e.C.RealDepth {
 		e.runReal(full, sr)
+	}
+	if e.C.Lazy && len(ops) >= 2 {
+		sys2 := Mount(simdisk.NewState(), e.Cfg)
+		lr := RunSession(nil, e.Cfg, full, SessionOpts{ObserveEach: true, CmpProp: e.C.Prop, CloseAtEnd: true, Lazy: true, Sys: sys2})
+		sys2.Unmount()
+		e.Stats.LazyRuns++
+		for _, v := range lr.Viol {
+			e.add(Finding{Prop: v.Prop, Msg: "[each call issued without waiting for the pending rotation] " + v.Msg, Ops: full})
+		}
 	}
 }
 
